@@ -4,6 +4,7 @@ to the day itself; quick: birth dates within +-2 days of every anniversary that 
 and XC under the four option combinations; oracle = the rule text on integer completed-years ages."""
 import datetime
 from datetime import date, timedelta
+from vlib import concpass
 from vlib import common
 from vlib import orderpass
 from vlib.common import Report, Violation, HarnessError, Acc, pmap, merge
@@ -242,10 +243,13 @@ def run(tier):
             oc.append((A, (b, m, cat), dict(vets=False, underage=True)))
     oc += [(A, ('1990-05-01', _dt.date(2016, 7, 1), 'TF')), (A, ('1990-05-01', '2016-07-01', 'XC')), (A, (_dt.date(1990, 5, 1), _dt.date(2016, 7, 1), 'nonsense'))]
     orderpass.part(rep, oc, 'age-group call-order pass')
+    concpass.part(rep, PID, tier)
     return rep.finish()
 
 
 def replay(rec):
+    if concpass.is_conc(rec):
+        return concpass.replay(rec)
     c = rec['case']
     calc = common.bind_repo().calc_uka_age_group
     b, m = date.fromisoformat(c['birth']), date.fromisoformat(c['match'])
